@@ -717,7 +717,7 @@ fn xref_sub() -> Sub {
     Sub::new(
         "write-locations-entry-references-multi-unit",
         len,
-        "every tuple of 1..=3 units with versions from {2,3,4,5} (84 tuples) x {32,64-bit} x address size {4,8}; every unit owns one location list [StartEnd(0x1000+u*0x100, +0x10, expr), StartEnd(0x2000, 0x2010, DW_OP_reg0)] where expr is DW_OP_call_ref or DW_OP_implicit_pointer of {an entry added before the referring entry, an entry added after it, an entry of the next unit (cyclically)}; written with write::Dwarf::write (cross-section fix-ups), read back with Dwarf::attr_locations",
+        "every tuple of 1..=3 units with versions from {2,3,4,5} (84 tuples) x {32,64-bit} x address size {4,8}; every unit owns one range list of its own [StartEnd(0x1040+u*0x100, +8+u)] and one location list [StartEnd(0x1000+u*0x100, +0x10, expr), StartEnd(0x2000, 0x2010, DW_OP_reg0)] where expr is DW_OP_call_ref or DW_OP_implicit_pointer of {an entry added before the referring entry, an entry added after it, an entry of the next unit (cyclically)}; written with write::Dwarf::write (cross-section fix-ups), read back with Dwarf::attr_locations",
         move |ctx, i| {
             let mut x = mcx::space::Mix(i);
             let tgt = x.take(3);
@@ -773,6 +773,9 @@ fn xref_sub() -> Sub {
                         write::Location::StartEnd { begin: Address::Constant(0x2000), end: Address::Constant(0x2010), data: plain },
                     ]));
                     unit.get_mut(vars[u]).set(gimli::DW_AT_location, AttributeValue::LocationListRef(id));
+                    // and a range list of its own: every unit's lists sit behind the earlier units' in the shared section
+                    let rid = unit.ranges.add(write::RangeList(vec![write::Range::StartEnd { begin: Address::Constant(base + 0x40), end: Address::Constant(base + 0x48 + u as u64) }]));
+                    unit.get_mut(vars[u]).set(gimli::DW_AT_ranges, AttributeValue::RangeListRef(rid));
                 }
                 let mut sections = Sections::new(SymVec::new(if big { RunTimeEndian::Big } else { RunTimeEndian::Little }));
                 dwarf.write(&mut sections)?;
@@ -830,6 +833,18 @@ fn xref_sub() -> Sub {
                             continue;
                         }
                         seen = true;
+                        {
+                            let base = 0x1000 + u as u64 * 0x100;
+                            let rv = die.attr_value(gimli::DW_AT_ranges).ok_or("variable without DW_AT_ranges")?;
+                            let mut rs = d.attr_ranges(unit, rv).map_err(|e| format!("attr_ranges: {}", e))?.ok_or("DW_AT_ranges is not a range list")?;
+                            let mut got = vec![];
+                            while let Some(r) = rs.next().map_err(|e| format!("unit {} range list: {}", u, e))? {
+                                got.push((r.begin, r.end));
+                            }
+                            if got != vec![(base + 0x40, base + 0x48 + u as u64)] {
+                                return Err(format!("unit {} (version {}) range list reads back as {:x?}, written [({:#x}, {:#x})]", u, versions[u], got, base + 0x40, base + 0x48 + u as u64));
+                            }
+                        }
                         let val = die.attr_value(gimli::DW_AT_location).ok_or("variable without DW_AT_location")?;
                         let mut locs = d.attr_locations(unit, val).map_err(|e| format!("attr_locations: {}", e))?.ok_or("DW_AT_location is not a location list")?;
                         let mut got = vec![];
